@@ -21,6 +21,28 @@ from . import battery, core
 from .threads import Deadlock, Scheduler, SimLock, StepCap
 
 PROP = "C19"
+N_BASE_STRUCT = len(battery.STRUCT)
+
+
+def install_extras(extras: List[List[Any]]) -> None:
+    """Extend the battery (before any golden is computed / any worker is forked)."""
+    del battery.STRUCT[N_BASE_STRUCT:]
+    for nm, tname, js in extras:
+        battery.STRUCT.append((nm, tname, js))
+    Z["golden"] = None
+
+
+def generate_extras(seed: int, count: int) -> Tuple[List[List[Any]], Optional[str]]:
+    import subprocess
+
+    try:
+        p = subprocess.run([sys.executable, "-m", "sim.extras", str(core.repo_root()), str(seed), str(count)], cwd=str(core.VERIF),
+                           capture_output=True, text=True, timeout=300, env={k: v for k, v in os.environ.items() if k != "PYTHONHASHSEED"} | {"PYTHONHASHSEED": "0"})
+        if p.returncode != 0:
+            return [], "extras generator failed: " + p.stderr.strip().splitlines()[-1][:200] if p.stderr.strip() else "rc!=0"
+        return json.loads(p.stdout.strip().splitlines()[-1]), None
+    except Exception as e:  # the generator of the tree under test is not C19's subject
+        return [], f"extras generator failed: {core.fmt_exc(e)[:200]}"
 
 BUGGIFY_SITES = [
     "resolve_types",
@@ -150,29 +172,49 @@ def customise(conv: Any) -> None:
     conv.register_unstructure_hook(lsp.Position, u_hook)
 
 
+def make_user(cfg: Any) -> Any:
+    """A user-supplied converter.  cfg: None | True | False (detailed_validation) or a dict
+    {'dv': None|True|False, 'fek': bool} (fek = forbid_extra_keys)."""
+    Counting = Z["Counting"]
+    if not isinstance(cfg, dict):
+        cfg = {"dv": cfg, "fek": False}
+    kw: Dict[str, Any] = {}
+    if cfg.get("dv") is not None:
+        kw["detailed_validation"] = cfg["dv"]
+    if cfg.get("fek"):
+        kw["forbid_extra_keys"] = True
+    return Counting(**kw)
+
+
+def cfg_key(cfg: Any) -> str:
+    return "fek" if isinstance(cfg, dict) and cfg.get("fek") else "std"
+
+
 def compute_golden() -> Dict[str, Any]:
-    """Sequential, untraced, one thread.  'plain': one fresh converter.  'post': fresh converter
-    customised after get_converter.  'pre': user converter customised before get_converter."""
+    """Sequential, untraced, one thread, one lone converter per entry.
+    'plain': fresh converter.  'post': customised after get_converter.  'pre': user converter
+    customised before get_converter.  '*-fek': the same on a user converter with forbid_extra_keys
+    (that option legitimately changes results, so it has its own reference)."""
     conv = Z["conv"]
     g: Dict[str, Any] = {}
-    c = conv.get_converter()
-    g["plain"] = {
-        "use": [do_use(c, k) for k in range(len(battery.STRUCT))],
-        "build": [do_build(c, k) for k in range(len(battery.BUILD))],
-    }
+
+    def outcomes(c: Any) -> Dict[str, Any]:
+        return {"use": [do_use(c, k) for k in range(len(battery.STRUCT))], "build": [do_build(c, k) for k in range(len(battery.BUILD))]}
+
+    g["plain"] = outcomes(conv.get_converter())
     c2 = conv.get_converter()
     customise(c2)
-    g["post"] = {
-        "use": [do_use(c2, k) for k in range(len(battery.STRUCT))],
-        "build": [do_build(c2, k) for k in range(len(battery.BUILD))],
-    }
-    c3 = Z["Counting"]()
+    g["post"] = outcomes(c2)
+    c3 = make_user(None)
     customise(c3)
-    c3 = conv.get_converter(c3)
-    g["pre"] = {
-        "use": [do_use(c3, k) for k in range(len(battery.STRUCT))],
-        "build": [do_build(c3, k) for k in range(len(battery.BUILD))],
-    }
+    g["pre"] = outcomes(conv.get_converter(c3))
+    g["plain-fek"] = outcomes(conv.get_converter(make_user({"dv": None, "fek": True})))
+    c5 = conv.get_converter(make_user({"dv": None, "fek": True}))
+    customise(c5)
+    g["post-fek"] = outcomes(c5)
+    c6 = make_user({"dv": None, "fek": True})
+    customise(c6)
+    g["pre-fek"] = outcomes(conv.get_converter(c6))
     return g
 
 
@@ -212,7 +254,11 @@ def gen_run(run_seed: int, tier: str) -> Dict[str, Any]:
     # except CUSTOM on a not-yet-registered user converter)
     if shape == "shared_user" or r_ops.random() < 0.15:
         n_shared = r_ops.choice([1, 1, 2])
-    shared_dv = [r_ops.choice([None, True, False]) for _ in range(n_shared)]
+    def rand_cfg() -> Any:
+        dv = r_ops.choice([None, True, False])
+        return {"dv": dv, "fek": True} if r_ops.random() < 0.2 else dv
+
+    shared_dv = [rand_cfg() for _ in range(n_shared)]
     shared_custom = [r_ops.random() < 0.25 for _ in range(n_shared)]
 
     def use_ops(slot: int, count: int) -> List[List[Any]]:
@@ -230,7 +276,7 @@ def gen_run(run_seed: int, tier: str) -> Dict[str, Any]:
             return ["GET", slot, "shared", r_ops.randrange(n_shared)]
         if x < 0.55:
             return ["GET", slot, "fresh", None]
-        return ["GET", slot, "user", r_ops.choice([None, True, False])]
+        return ["GET", slot, "user", rand_cfg()]
 
     threads: List[List[List[Any]]] = []
     for t in range(n):
@@ -330,19 +376,29 @@ def execute(run: Dict[str, Any], golden: Dict[str, Any]) -> Dict[str, Any]:
         "burst_100": 0,
         "custom_then_other_used": 0,
         "reget": 0,
+        "forbid_extra_keys_config": 0,
+        "extra_battery_used": 0,
     }
 
     # model: identity -> mode ('plain' | 'post' | 'pre' | 'unknown'); slots per thread
     mode: Dict[int, str] = {}
     shared: List[Any] = []
+    cfgs: Dict[int, str] = {}
     for i, dv in enumerate(run["shared_dv"]):
-        c = Counting() if dv is None else Counting(detailed_validation=dv)
+        c = make_user(dv)
         c.sim_tag = f"shared{i}"
+        cfgs[id(c)] = cfg_key(dv)
+        if cfg_key(dv) == "fek":
+            probes["forbid_extra_keys_config"] += 1
         if run["shared_custom"][i]:
             customise(c)
             mode[id(c)] = "pre"
             probes["customise_before_get"] += 1
         shared.append(c)
+
+    def gold(c: Any) -> Dict[str, Any]:
+        m = mode.get(id(c), "plain")
+        return golden[m + "-fek" if cfgs.get(id(c)) == "fek" else m]
     keep_alive: List[Any] = list(shared)
     registry: List[Any] = []  # converters in order of (completed) creation, for the final sweep
 
@@ -425,8 +481,12 @@ def execute(run: Dict[str, Any], golden: Dict[str, Any]) -> Dict[str, Any]:
                         c = conv_mod.get_converter()
                         mode.setdefault(id(c), "plain")
                     elif how == "user":
-                        base = Counting() if arg is None else Counting(detailed_validation=arg)
+                        base = make_user(arg)
+                        cfgs[id(base)] = cfg_key(arg)
+                        if cfg_key(arg) == "fek":
+                            probes["forbid_extra_keys_config"] += 1
                         c = conv_mod.get_converter(base)
+                        cfgs.setdefault(id(c), cfg_key(arg))
                         if c is not base:
                             mode.setdefault(id(c), "plain")
                         mode.setdefault(id(base), "plain")
@@ -442,6 +502,7 @@ def execute(run: Dict[str, Any], golden: Dict[str, Any]) -> Dict[str, Any]:
                         mode.setdefault(id(base), "plain")
                         if c is not base:
                             mode.setdefault(id(c), mode[id(base)])
+                            cfgs.setdefault(id(c), cfgs.get(id(base), "std"))
                     keep_alive.append(c)
                     registry.append(c)
                     slots[s] = c
@@ -453,6 +514,7 @@ def execute(run: Dict[str, Any], golden: Dict[str, Any]) -> Dict[str, Any]:
                     keep_alive.append(c2)
                     if c2 is not c:
                         mode.setdefault(id(c2), mode.get(id(c), "plain"))
+                        cfgs.setdefault(id(c2), cfgs.get(id(c), "std"))
                     slots[op[1]] = c2
                     probes["reget"] += 1
                     outcome = ("got",)
@@ -478,8 +540,10 @@ def execute(run: Dict[str, Any], golden: Dict[str, Any]) -> Dict[str, Any]:
                     c = slots[op[1]]
                     if any_custom[0] and mode.get(id(c), "plain") == "plain":
                         probes["custom_then_other_used"] += 1
+                    if op[2] >= N_BASE_STRUCT:
+                        probes["extra_battery_used"] += 1
                     outcome = do_use(c, op[2])
-                    exp = golden[mode.get(id(c), "plain")]["use"][op[2]]
+                    exp = gold(c)["use"][op[2]]
                     if tuple(exp) != tuple(outcome):
                         nm = battery.STRUCT[op[2]][0]
                         viol.append(
@@ -492,7 +556,7 @@ def execute(run: Dict[str, Any], golden: Dict[str, Any]) -> Dict[str, Any]:
                 elif kind == "BUILD":
                     c = slots[op[1]]
                     outcome = do_build(c, op[2])
-                    exp = golden[mode.get(id(c), "plain")]["build"][op[2]]
+                    exp = gold(c)["build"][op[2]]
                     if tuple(exp) != tuple(outcome):
                         nm = battery.BUILD[op[2]][0]
                         viol.append(
@@ -557,7 +621,7 @@ def execute(run: Dict[str, Any], golden: Dict[str, Any]) -> Dict[str, Any]:
             md = mode.get(id(c), "plain")
             for k in ks:
                 out = do_use(c, k)
-                exp = golden[md]["use"][k]
+                exp = gold(c)["use"][k]
                 swept += 1
                 if tuple(exp) != tuple(out):
                     nm = battery.STRUCT[k][0]
@@ -671,8 +735,8 @@ def worker_run(task: Dict[str, Any]) -> Dict[str, Any]:
 
 TIERS = {
     # runs, determinism re-run sample, wall budget (s) for the main sweep
-    "quick": {"runs": 1000, "det": 64, "budget": 120.0},
-    "thorough": {"runs": 40000, "det": 600, "budget": 2400.0},
+    "quick": {"runs": 1000, "det": 64, "budget": 120.0, "extras": 60},
+    "thorough": {"runs": 40000, "det": 600, "budget": 2400.0, "extras": 400},
 }
 
 
@@ -787,6 +851,7 @@ def replay_file(path: str) -> int:
     reproduces, 0 if not."""
     body = json.loads(open(path).read())
     zygote_init(str(core.repo_root()))
+    install_extras(body.get("battery_extra") or [])
     res = worker_run(body["run"])
     sigs = _sigs(res)
     print(f"[C19] replay {path}: signatures {sigs} digest {res.get('digest')}")
@@ -809,6 +874,7 @@ def fresh_digests(seeds: List[int], tier: str, hashseed: str) -> Dict[str, str]:
     env = dict(os.environ)
     env["PYTHONHASHSEED"] = hashseed
     env["VERIF_WORKERS"] = "4"
+    env["LSPV_EXTRAS"] = json.dumps([list(x) for x in battery.STRUCT[N_BASE_STRUCT:]])
     p = subprocess.run(
         [sys.executable, "-m", "sim.c19", "--digests", tier, ",".join(map(str, seeds))],
         cwd=str(core.VERIF), env=env, capture_output=True, text=True, timeout=600,
@@ -836,6 +902,7 @@ def main(argv: List[str]) -> int:
     zygote_init(str(core.repo_root()))  # parent is the zygote of all pool workers (fork)
 
     if a.digests:
+        install_extras(json.loads(os.environ.get("LSPV_EXTRAS") or "[]"))
         tier, seeds = a.digests[0], [int(x) for x in a.digests[1].split(",") if x]
         tasks = [gen_run(s, tier) for s in seeds]
         res = core.run_pool(worker_run, tasks, workers=core.n_workers())
@@ -852,6 +919,10 @@ def main(argv: List[str]) -> int:
     rep = core.Report(PROP, tier, seed)
     rep.log(f"VERIF_SEED={seed} tier={tier} runs<={cfg['runs']} workers={core.n_workers()} repo={core.repo_root()}")
 
+    extras, extras_note = generate_extras(core.derive(seed, PROP, "extras"), cfg.get("extras", 60))
+    install_extras(extras)
+    rep.log(f"battery: {N_BASE_STRUCT} fixed structure inputs + {len(extras)} vectors from the tree's testdata plugin"
+            + (f" ({extras_note})" if extras_note else "") + f", {len(battery.BUILD)} constructor recipes")
     run_seeds = [core.derive(seed, PROP, i) for i in range(cfg["runs"])]
     t_start = time.monotonic()
     deadline = t_start + cfg["budget"]
@@ -949,6 +1020,7 @@ def main(argv: List[str]) -> int:
             "digest": mres.get("digest"),
             "decisions": mres.get("decisions"),
             "history": mres.get("history"),
+            "battery_extra": [list(x) for x in battery.STRUCT[N_BASE_STRUCT:]],
             "how_to_replay": "cd /verif && ./check C19 --replay <this file>",
         }
         if rep.add_violation(sig, msg, replay):
@@ -1018,7 +1090,8 @@ def main(argv: List[str]) -> int:
             "simulated": ["choice of which thread runs at each pre-emption point", "threading.Lock/RLock created by lsprotocol (none on the pinned tree)"],
             "stub": [],
         },
-        "battery": {"structure_inputs": len(battery.STRUCT), "constructor_recipes": len(battery.BUILD)},
+        "battery": {"structure_inputs_fixed": N_BASE_STRUCT, "structure_inputs_from_testdata_plugin": len(battery.STRUCT) - N_BASE_STRUCT,
+                    "constructor_recipes": len(battery.BUILD), "note": extras_note},
         "violation_signatures": sorted(first_fail),
     }
     assumptions = [
